@@ -9,6 +9,7 @@ package harness
 
 import (
 	"fmt"
+	goruntime "runtime"
 	"sort"
 	"strings"
 	"testing"
@@ -164,6 +165,10 @@ fn add_parsed(s: str) -> int {
     parsed_total
 }
 fn parse_errors() -> int { parse_errs }
+fn read_port(cfg: { ? }, use_default: bool) -> ?int {
+    let port: ?int = if use_default { ?8080 } else { cfg.get("port") };
+    port
+}
 fn tag_count(key: str) -> int {
     let o = new { ? };
     o.set(key, 1);
@@ -354,7 +359,7 @@ func wantNull(v value.Value) string {
 	return ""
 }
 
-var intArgs = []int64{0, 1, -1, 2, 7, 99, 100, -50, 1 << 40}
+var intArgs = []int64{0, 1, -1, 2, 7, 99, 100, -50, 1 << 40, 9007199254740993, -9007199254740993, 1234567890123456789}
 var strArgs = []string{"", "a", "xy z", "|", "ü"}
 
 // genOp draws one operation. pfault in [0..100]: percentage of failing operations.
@@ -384,7 +389,40 @@ func c16GenOp(s *simrt.Sim, m *c16Model, pfault int, force int) c16Op {
 			// handled by the caller: print fault / cancel fault on an ordinary op
 		}
 	}
-	switch pick(57, "op") {
+	switch pick(59, "op") {
+	case 57, 58:
+		// an any-object from the host; the declared result type is ?int whatever the object holds
+		which := pick(3, "arg")
+		def := pick(2, "arg") == 1
+		var pv *value.Value
+		switch which {
+		case 0:
+			pv = value.NewValueInt(9000)
+		case 1:
+			pv = value.NewValueInt(-1)
+		default:
+			pv = value.NewValueString("http")
+		}
+		cfg := *value.NewValueAnyObject(map[string]*value.Value{"port": pv})
+		desc := fmt.Sprintf("read_port({port: %d}, %v)", which, def)
+		wantDisp := map[int]string{0: "Some(9000)", 1: "Some(-1)"}[which]
+		if def {
+			wantDisp = "Some(8080)"
+		}
+		if which == 2 && !def {
+			// a string where the declared type says int: the cast inside the function fails, the call fails
+			return c16Op{fn: "read_port", args: []value.Value{cfg, vBool(def)}, desc: desc, failKinds: []string{"fatal:UncaughtThrow", "fatal:CastError"}}
+		}
+		return c16Op{pure: true, fn: "read_port", args: []value.Value{cfg, vBool(def)}, desc: desc, check: func(v value.Value) string {
+			if _, ok := v.(value.ValueOption); !ok {
+				return fmt.Sprintf("returned %T, want an option", v)
+			}
+			d, _ := v.Display()
+			if d != wantDisp {
+				return fmt.Sprintf("returned %s, want %s", d, wantDisp)
+			}
+			return ""
+		}}
 	case 51:
 		n := []int64{0, 7, 10, 99}[pick(4, "arg")]
 		return c16Op{fn: "patch_cfg", args: []value.Value{vInt(n)}, desc: fmt.Sprintf("patch_cfg(%d)", n), check: wantNull, apply: func(m *c16Model) { m.cfgRetries, m.cfgSet = n, true }}
@@ -889,6 +927,9 @@ func runC16(t *testing.T, spec RunSpec) *Verdict {
 		v.fail(P, "infra", "", "", "service program does not compile: "+err.Error())
 		return v
 	}
+	if spec.P("residency", 0) == 1 {
+		return runC16Residency(t, spec, prog)
+	}
 	env := newVMEnv(prog, c16Limits)
 	maxLen := spec.P("len", 10)
 	pfault := spec.P("pfault", 10)
@@ -1226,6 +1267,77 @@ func runC16(t *testing.T, spec RunSpec) *Verdict {
 	return v
 }
 
+// runC16Residency: "a completed call leaves nothing behind ... cores": 150 calls on one VM whose cores are
+// large (MaxMemorySize 300000); the Go heap that is still reachable afterwards must not have grown by
+// anything like 150 cores' worth.
+func runC16Residency(t *testing.T, spec RunSpec, prog *compiled) *Verdict {
+	const P = "C16"
+	v := &Verdict{}
+	env := newVMEnv(prog, runtime.CoreLimits{CallStackMaxSize: 64, StackMaxSize: 400, MaxMemorySize: 300000})
+	var before, after goruntime.MemStats
+	calls := 150
+	bad := ""
+	res := simrt.Run(t, simConfig(spec.Sim), simSource(spec), func(s *simrt.Sim) {
+		env.boot()
+		env.ctx.ResetPolls()
+		call := func(k int) bool {
+			inv, err := c16Invocation(prog, "sum3", []value.Value{vInt(int64(k % 10)), vInt(1), vInt(2)})
+			if err != nil {
+				bad = err.Error()
+				return false
+			}
+			var r runtime.FunctionInvocationResult
+			if k%2 == 0 {
+				r = env.vm.SpawnSync(inv, nil, nil)
+			} else {
+				c := env.vm.SpawnAsync(inv, nil, nil, nil)
+				num, i := env.vm.Wait()
+				r = env.vm.HandleTermination(c, inv, i, num)
+			}
+			if r.Exception != nil {
+				bad = "call failed: " + firstLine(r.Exception.Interrupt.Message())
+				return false
+			}
+			if msg := wantInt(int64(k%10)*100 + 12)(r.ReturnValue); msg != "" {
+				bad = msg
+				return false
+			}
+			return true
+		}
+		for k := 0; k < 10; k++ {
+			if !call(k) {
+				return
+			}
+		}
+		s.Settle(time.Second)
+		goruntime.GC()
+		goruntime.ReadMemStats(&before)
+		for k := 0; k < calls; k++ {
+			if !call(k) {
+				return
+			}
+		}
+		s.Settle(time.Second)
+		goruntime.GC()
+		goruntime.GC()
+		goruntime.ReadMemStats(&after)
+	})
+	v.absorb(P, res)
+	if v.Class != "" {
+		return v
+	}
+	if bad != "" {
+		v.fail(P, "wrong-result", "call-result", "residency:"+clip(bad), "marathon of identical calls: "+bad)
+		return v
+	}
+	grown := int64(after.HeapAlloc) - int64(before.HeapAlloc)
+	v.Probes = map[string]int{"residency-heap-growth-kib": int(grown / 1024)}
+	if grown > 96<<20 {
+		v.fail(P, "wrong-result", "no-residue-cores", "go-heap", fmt.Sprintf("after %d completed calls on one VM (MaxMemorySize 300000) the reachable Go heap has grown by %d MiB: what finished cores held is not given back", calls, grown>>20))
+	}
+	return v
+}
+
 func c16Globals(env *vmEnv, prog *compiled, m *c16Model) string {
 	g := env.vm.GetGlobals()
 	cm, ok := prog.out.Mappings.Globals["counter"]
@@ -1270,6 +1382,18 @@ func planC16(t *testing.T, tier string, seed uint64) ([]RunSpec, error) {
 		}
 		s.Sim.POther = 1 // operations, arguments and modes are drawn uniformly
 		s.Seed = runSeed(seed, i)
+		plan = append(plan, s)
+	}
+	// what finished cores held is given back (Go heap after many calls with large cores)
+	for i := 0; i < 2; i++ {
+		s := RunSpec{Property: "C16", Workload: "c16/residency", Params: map[string]int{"residency": 1}}
+		s.Sim = SimParams{StepCostNs: 100}
+		s.Choices = &simrt.Sparse{}
+		if i == 1 {
+			s.Choices = nil
+			s.Sim = swarm(seed, 7*n+i)
+			s.Seed = runSeed(seed, 7*n+i)
+		}
 		plan = append(plan, s)
 	}
 	// marathons: hundreds of calls on one VM ("repeatedly on the same VM" has no upper bound)
